@@ -302,6 +302,21 @@ example :
     (lookup t ⟨4, 0x0a010909⟩).map (·.metric) = some 7 ∧
     lookup t ⟨4, 0x0b000000⟩ = none := by decide
 
+/-- the table of the example above: four routes under three keys -/
+private def t0 : CTable :=
+  (run cidrCfg 1 [.add (ent netA 2 9), .add (ent netB 3 1), .add (ent netM 4 5), .add (ent netC 5 7)]).tab
+
+/-- The hypotheses of `C08_lookup_correct` / `C08_lookup_none_iff` / `C08_inv_step` (`WF`) and of
+    `WF_perm` / `C08_any_map_order` (a permutation of a well-formed table) are met by a table that
+    is not trivial: 4 routes, 2 keys, one slice of 3 entries. -/
+example : WF cidrCfg 1 t0 ∧ (routes t0).length = 4 ∧ t0.length = 2 ∧
+    t0.reverse.Perm t0 ∧ t0.reverse ≠ t0 :=
+  ⟨C08_inv_run 1 _, by decide, by decide, List.reverse_perm _, by decide⟩
+
+/-- … and the other iteration order gives the same answers on it. -/
+example : (lookup t0.reverse ⟨4, 0x0a090909⟩).map (·.metric) = some 1 ∧
+    (lookup t0.reverse ⟨4, 0x0a010909⟩).map (·.metric) = some 7 := by decide
+
 /-- The table as it was keyed before the repair: by the network as given. -/
 def rawCfg : Cfg CKey IPNet := { cidrCfg with store := id }
 
